@@ -80,10 +80,13 @@ def _cases(tier):
 def _nested_cases():
     e = {"e0": ["prov", "e0"]}
     for depth in (1, 2, 3):
-        p = T.prog([T.fn("pre", ["e0"], ["a0"]), T.interrupt("ask", ["a0"], ["ans"], behav="pause"), T.fn("post", ["ans"], ["b0"])], name="g0")
-        for d in range(1, depth + 1):
-            p = T.prog([T.gnode(f"g{d - 1}", p), T.fn(f"sib{d}", ["e0"], [f"s{d}"])], name=f"g{d}")
-        yield (depth, p, e)
+        for differ in (False, True):
+            # differ: the graph node is mounted under a name that differs from the inner graph's own name;
+            # the pause path is made of NODE names
+            p = T.prog([T.fn("pre", ["e0"], ["a0"]), T.interrupt("ask", ["a0"], ["ans"], behav="pause"), T.fn("post", ["ans"], ["b0"])], name="inner_graph_0" if differ else "g0")
+            for d in range(1, depth + 1):
+                p = T.prog([T.gnode(f"g{d - 1}", p), T.fn(f"sib{d}", ["e0"], [f"s{d}"])], name=f"inner_graph_{d}" if differ else f"g{d}")
+            yield (depth, p, e)
 
 
 def shards(tier, seed):
@@ -272,6 +275,48 @@ class _Z:
         return 0
 
 
+def same_runner_two_graphs(acc):
+    """One AsyncRunner serves graph A, then graph B whose interrupt has the same node name but other outputs."""
+    from hypergraph import AsyncRunner
+
+    from .. import seams
+    from ..vloop import VLoop
+
+    runner = AsyncRunner()
+    e = {"e0": ("prov", "e0")}
+    progA = T.prog([T.interrupt("ask", ["e0"], ["decision"], behav="pause"), T.fn("useA", ["decision"], ["ua"])])
+    progB = T.prog([T.interrupt("ask", ["e0"], ["decision"], behav="pause", rename_out={"decision": "verdict"}, fname="ask_b", shared_ok=True), T.fn("useB", ["verdict"], ["ub"])])
+    out = []
+    for label, prog, outname in (("A", progA, "decision"), ("B", progB, "verdict")):
+        h = H()
+        spec_prog = T.set_async(prog, True)
+        for s in spec_prog["nodes"]:
+            if s["kind"] == "interrupt":
+                s.pop("async", None)
+        g = build(spec_prog, h)
+        for round_, ins in enumerate((dict(e), {**e, outname: ("resp", outname)})):
+            loop = VLoop()
+            h.loop = loop
+            try:
+                with seams.use(h):
+                    res = loop.run_main(runner.run(g, ins, error_handling="continue"), _Z())
+            except Exception as ex:  # noqa: BLE001
+                out.append(("run-rejected", f"graph {label} round {round_}: {type(ex).__name__}: {str(ex)[:120]}"))
+                break
+            finally:
+                loop.close()
+            acc.evaluations += 1
+            if round_ == 0:
+                if res.status.value != "paused" or res.pause.output_param != outname or res.pause.response_key != outname:
+                    out.append(("response-keys", f"graph {label} on a runner that served another graph before: pause reports {res.status.value} / {getattr(res.pause, 'response_key', None)!r}, expected key {outname!r}"))
+                    break
+            elif res.status.value != "completed" or ("ua" if label == "A" else "ub") not in res.values:
+                out.append(("history-does-not-complete", f"graph {label}: resuming under {outname!r} gave {res.status.value} {jsonable(res.values)}"))
+    acc.key(("same-runner-two-graphs",))
+    for sym, msg in out:
+        acc.violation({"symptom": sym, "history": "one-runner-two-graphs"}, {"same_runner": True}, msg)
+
+
 def nested_check(acc):
     from hypergraph import AsyncRunner
 
@@ -294,6 +339,7 @@ def nested_check(acc):
         path = "/".join([f"g{d}" for d in range(depth - 1, -1, -1)] + ["ask"])
         dotted = ".".join([f"g{d}" for d in range(depth - 1, -1, -1)] + ["ans"])
         w = {"nested_depth": depth, "program": prog}
+        acc.key(("nested", depth, prog.get("name")))
         if res.status.value != "paused":
             acc.violation({"symptom": "nested-pause-status"}, w, f"depth {depth}: status {res.status.value}")
             continue
@@ -311,6 +357,7 @@ def run_shard(shard):
     acc = Acc()
     if s == "nested":
         nested_check(acc)
+        same_runner_two_graphs(acc)
         return acc
     for ci, (family, prog, inputs) in enumerate(_cases(tier)):
         if ci % k != s:
@@ -341,6 +388,10 @@ def coverage_extra(acc, tier, seed):
 
 
 def replay(rep):
+    if rep.get("same_runner"):
+        acc = Acc()
+        same_runner_two_graphs(acc)
+        return [v["message"] for v in acc.violations.values()]
     if "nested_depth" in rep:
         acc = Acc()
         nested_check(acc)
